@@ -34,6 +34,9 @@ type c14Ev struct {
 	T   time.Duration `json:"t"` // offset from start
 	Src int           `json:"src"`
 	Amt int64         `json:"amt"`
+	// Re != nil: not a request but a run-time re-configuration: the rate set Src is limited by (Src < 0: the limiter's
+	// shared default set) is changed in place to these rates
+	Re []rateSpec `json:"reconfigure,omitempty"`
 }
 
 type c14Dec struct {
@@ -53,6 +56,12 @@ func c14Serve(tl *ratelimit.TokenLimiter, admitted *int, src int, amt int64) c14
 }
 
 func c14RunRate(rs []rateSpec, capacity int, start time.Time, evs []c14Ev, only int) map[int][]c14Dec {
+	return c14RunRateMode(rs, capacity, start, evs, only, false)
+}
+
+// perSrcSets: every source is limited by its own long-lived *RateSet object handed out by a rate extractor (a per-tenant
+// cache); re-configuration events change those objects (or the shared default set) in place.
+func c14RunRateMode(rs []rateSpec, capacity int, start time.Time, evs []c14Ev, only int, perSrcSets bool) map[int][]c14Dec {
 	freeze(start)
 	defer unfreeze()
 	n := new(int)
@@ -60,19 +69,46 @@ func c14RunRate(rs []rateSpec, capacity int, start time.Time, evs []c14Ev, only 
 	if capacity > 0 {
 		opts = append(opts, ratelimit.Capacity(capacity))
 	}
-	tl, err := ratelimit.New(http.HandlerFunc(func(http.ResponseWriter, *http.Request) { *n++ }), hdrExtractor, mkRateSet(rs), opts...)
+	def := mkRateSet(rs)
+	sets := map[string]*ratelimit.RateSet{}
+	if perSrcSets {
+		opts = append(opts, ratelimit.ExtractRates(ratelimit.RateExtractorFunc(func(req *http.Request) (*ratelimit.RateSet, error) {
+			k := req.Header.Get("X-Src")
+			if sets[k] == nil {
+				sets[k] = mkRateSet(rs)
+			}
+			return sets[k], nil
+		})))
+	}
+	tl, err := ratelimit.New(http.HandlerFunc(func(http.ResponseWriter, *http.Request) { *n++ }), hdrExtractor, def, opts...)
 	if err != nil {
 		panic(err)
 	}
 	out := map[int][]c14Dec{}
 	var cur time.Duration
 	for _, e := range evs {
-		if only >= 0 && e.Src != only {
+		if only >= 0 && e.Src != only && !(e.Re != nil && e.Src < 0) {
 			continue
 		}
 		if e.T > cur {
 			advance(e.T - cur)
 			cur = e.T
+		}
+		if e.Re != nil {
+			set := def
+			if e.Src >= 0 {
+				k := sfmt("s%d", e.Src)
+				if sets[k] == nil {
+					sets[k] = mkRateSet(rs)
+				}
+				set = sets[k]
+			}
+			for _, x := range e.Re {
+				if err := set.Add(x.Period, x.Average, x.Burst); err != nil {
+					panic(err)
+				}
+			}
+			continue
 		}
 		out[e.Src] = append(out[e.Src], c14Serve(tl, n, e.Src, e.Amt))
 	}
@@ -114,7 +150,7 @@ func c14GenEvents(r *rand.Rand, rs []rateSpec, nsrc, n int) []c14Ev {
 		if r.IntN(3) == 0 {
 			src = 0 // one hot source
 		}
-		evs = append(evs, c14Ev{t, src, amt})
+		evs = append(evs, c14Ev{T: t, Src: src, Amt: amt})
 	}
 	return evs
 }
@@ -129,11 +165,36 @@ func c14Rate(c *Ctx) {
 		}
 		start := baseTime.Add(time.Duration(r.Int64N(int64(time.Hour)))).Add(time.Duration(r.Int64N(1e9)))
 		evs := c14GenEvents(r, rs, nsrc, 150+r.IntN(500))
-		merged := c14RunRate(rs, capacity, start, evs, -1)
+		// run-time re-configuration: rate sets changed in place (same periods, new average/burst) between requests
+		reconf := i%4 == 3
+		perSrc := reconf && r.IntN(3) > 0
+		if reconf {
+			var out []c14Ev
+			for _, e := range evs {
+				if r.IntN(25) == 0 {
+					re := c14Ev{T: e.T, Src: -1}
+					if perSrc {
+						re.Src = r.IntN(nsrc)
+						if r.IntN(2) == 0 {
+							re.Src = 0
+						}
+					}
+					for _, x := range rs {
+						avg := int64(1 + r.IntN(20))
+						re.Re = append(re.Re, rateSpec{x.Period, avg, 1 + r.Int64N(5*avg)})
+					}
+					out = append(out, re)
+					c.Count("reconfigurations_in_place", 1)
+				}
+				out = append(out, e)
+			}
+			evs = out
+		}
+		merged := c14RunRateMode(rs, capacity, start, evs, -1, perSrc)
 		c.Eval()
 		both := 0
 		for s := 0; s < nsrc; s++ {
-			solo := c14RunRate(rs, capacity, start, evs, s)[s]
+			solo := c14RunRateMode(rs, capacity, start, evs, s, perSrc)[s]
 			m := merged[s]
 			c.Count("projections_compared", 1)
 			if len(solo) != len(m) {
